@@ -58,7 +58,7 @@ def _worker(args):
 
 
 def load_known():
-    p = os.path.join(VERIF, "known_findings.json")
+    p = os.environ.get("JASM_VERIF_KNOWN_FINDINGS") or os.path.join(VERIF, "known_findings.json")
     if not os.path.isfile(p):
         return []
     with open(p) as fh:
